@@ -222,7 +222,20 @@
 ;;> with the full match, using \scheme{#f} for unmatched submatches.
 
 (define (regexp-match->list md)
-  (regexp-match-convert #f md #f))
+  ;; go by the submatch rules: an unmatched submatch occupies two #f
+  ;; slots of the match vector, which must give one #f in the list
+  (let ((rules (regexp-match-rules md))
+        (str (regexp-match-string md)))
+    (let lp ((i (- (vector-length rules) 1)) (res '()))
+      (if (< i 0)
+          res
+          (let ((rule (vector-ref rules i)))
+            (lp (- i 1)
+                (cons (if (pair? rule)
+                          (regexp-match-submatch md i)
+                          (regexp-match-convert
+                           #f (regexp-match-ref md rule) str))
+                      res)))))))
 
 ;;> Convert an regexp-match result to a forest of submatches, beginning
 ;;> with the full match, using \scheme{#f} for unmatched submatches.
